@@ -179,7 +179,7 @@ func init() {
 	fw.Register(&fw.Check{
 		ID:    "C04",
 		Level: "model_checking",
-		Rule: "every string up to the length bound over a per-tokenizer alphabet with one representative of each character class that selects a different state or look-ahead branch; all seven options off; plus every one of 80 boundary characters (controls incl. NUL, each ASCII class edge, Latin-1, 0xFF/0x100, general punctuation, 0xFFFD..0xFFFF, first astral, U+10FFFF) in every context of up to 2+2 characters, and every pattern of <=3 characters repeated k times for 13 (thorough 24) sizes around powers of two up to 1000 (plus a generic tokenizer configured with the C++ comment state, whose code the built-in tokenizers only partly reach); " +
+		Rule: "every string up to the length bound over a per-tokenizer alphabet with one representative of each character class that selects a different state or look-ahead branch; all seven options off; plus every one of 121 boundary characters (incl. the aliases of 19 syntax characters modulo 2^8 and 2^16; controls incl. NUL, each ASCII class edge, Latin-1, 0xFF/0x100, general punctuation, 0xFFFD..0xFFFF, first astral, U+10FFFF) in every context of up to 2+2 characters, and every pattern of <=3 characters repeated k times for 13 (thorough 24) sizes around powers of two up to 1000 (plus a generic tokenizer configured with the C++ comment state, whose code the built-in tokenizers only partly reach); " +
 			"oracle: token values concatenate to the input, tokens non-empty, single trailing Eof, TokenizeBuffer == NextToken loop; non-trivial = input on which some state pushed back at least one character (counted by the scanner wrapper)",
 		Assume: []string{"one representative per character class stands for the class", "termination decided by a deterministic scanner step budget of 64*(len+2)"},
 		Spaces: func(tier string) []fw.Space {
@@ -228,6 +228,23 @@ func init() {
 				kind := kind
 				ca := tokContextAlphabets[kind]
 				nctx := contextsCount(ca, 2)
+				sp = append(sp, fw.Space{Name: "charsweep-doubled-" + kind, N: int64(len(boundaryChars)) * (1 + int64(len(ca))),
+					Run: func(c *fw.Ctx, i int64) {
+						ch := string(boundaryChars[i/(1+int64(len(ca)))])
+						mid := ""
+						if k := i % (1 + int64(len(ca))); k > 0 {
+							mid = string(ca[k-1])
+						}
+						c04Run(c, kind, ch+mid+ch)
+					},
+					Repr: func(i int64) string {
+						ch := string(boundaryChars[i/(1+int64(len(ca)))])
+						mid := ""
+						if k := i % (1 + int64(len(ca))); k > 0 {
+							mid = string(ca[k-1])
+						}
+						return fmt.Sprintf("%s tokenizer, input %q (a boundary character on both sides of a short middle)", kind, ch+mid+ch)
+					}})
 				sp = append(sp, fw.Space{Name: "charsweep-" + kind, N: nctx * int64(len(boundaryChars)),
 					Run: func(c *fw.Ctx, i int64) {
 						pre, suf := contextByIndex(ca, 2, i%nctx)
@@ -260,7 +277,7 @@ func init() {
 		},
 		Bounds: func(tier string) string {
 			if tier == "thorough" {
-				return "character sweep: 80 boundary characters in every context of <=2+2 characters; pumped: every pattern of <=3 characters repeated 2..1000 times (24 sizes); generic: len<=6 over 19 chars; expression: len<=6 over 21; csv: len<=8 over 8; mustache: len<=7 over 10"
+				return "character sweep: 121 boundary characters in every context of <=2+2 characters; pumped: every pattern of <=3 characters repeated 2..1000 times (24 sizes); generic: len<=6 over 19 chars; expression: len<=6 over 21; csv: len<=8 over 8; mustache: len<=7 over 10"
 			}
 			return "generic/expression: len<=4; csv/mustache: len<=5"
 		},
